@@ -882,14 +882,16 @@ def probes(rng, tier):
                    "observed = (snap(p), snap(q)); ok = observed == expected\n" % expr)
             probe('derived-array-is-fresh-' + name, 'overwriting the array returned by %s changes no observable of any partition on that grid' % expr, src)
 
-    # -- P11 invalid nodes_on_bdry (wrong number of axes) is a ValueError in every factory
-    for ctor in ("odl.uniform_partition([0, 0], [1, 1], (2, 2), nodes_on_bdry=fl)",
-                 "odl.uniform_partition_fromintv(odl.IntervalProd([0, 0], [1, 1]), (2, 2), nodes_on_bdry=fl)",
-                 "odl.nonuniform_partition([0, 1], [0, 1], nodes_on_bdry=fl)"):
-        src = (_PRE + "fl = [True, False, True]\ntry:\n    %s\n    observed = 'accepted'\nexcept Exception as e:\n"
-               "    observed = type(e).__name__\nexpected = 'ValueError'; ok = observed == expected\n" % ctor)
-        key = 'nodes_on_bdry-wrong-length-error-class' if 'fromintv' not in ctor else 'nodes_on_bdry-wrong-length-fromintv'
-        probe(key, 'nodes_on_bdry with the wrong number of axes raises ValueError', src)
+    # -- P11 invalid nodes_on_bdry (wrong number of axes; plain, mixed bool/pair, nested) is a ValueError in every factory
+    for fl in ([True, False, True], [True, (False, True), False], [(True, False), (False, True), True], [True],
+               [(True, False), False, (True, True), False]):
+        for ctor in ("odl.uniform_partition([0, 0], [1, 1], (2, 2), nodes_on_bdry=fl)",
+                     "odl.uniform_partition_fromintv(odl.IntervalProd([0, 0], [1, 1]), (2, 2), nodes_on_bdry=fl)",
+                     "odl.nonuniform_partition([0, 1], [0, 1], nodes_on_bdry=fl)"):
+            src = (_PRE + "fl = %r\ntry:\n    %s\n    observed = 'accepted'\nexcept Exception as e:\n"
+                   "    observed = type(e).__name__\nexpected = 'ValueError'; ok = observed == expected\n" % (fl, ctor))
+            key = 'nodes_on_bdry-wrong-length-error-class' if 'fromintv' not in ctor else 'nodes_on_bdry-wrong-length-fromintv'
+            probe(key, 'nodes_on_bdry with the wrong number of axes raises ValueError', src)
 
     # -- P6 every consistent subset of (min_pt, max_pt, shape, cell_sides) gives the same partition
     for _ in range(40 * N):
